@@ -142,13 +142,15 @@ def classify_dump(dump):
     nodes = dump["nodes"]
     if dump["comments"] is not None:
         tags.add("comments")
+    if any(nd["eolterm"] for nd in nodes) and any(nd["ws"] is not None for nd in nodes):
+        tags.add("eolterm_ws")         # eol_ws_ok: a rule-level ws inside an eolterm repetition is restored wrongly
     for nd in nodes:
         k, kids = nd["kind"], nd["kids"]
         live_root = nd["root"] and not nd["suppress"]
         if nd["sep"] is not None and k not in ("KStar", "KPlus"):
             tags.add("unordered_group" if k == "KUnord" else "malformed")
-        if nd["eolterm"]:
-            tags.add("eolterm")
+        if nd["eolterm"] and k not in ("KStar", "KPlus", "KOpt"):
+            tags.add("unordered_group" if k == "KUnord" else "malformed")
         if (nd["ws"] is not None or nd["skipws"] is not None) and k not in ("KSeq", "KChoice"):
             tags.add("malformed")
         if k == "KUnord":
